@@ -1,11 +1,282 @@
 (* C08 — Validator-set updates, proposer rotation and historical lookup are exact.
-   Only the property statements; each is closed by [exact] of a lemma of the proof files. *)
-From Coq Require Import List ZArith NArith Bool.
+   Only the property statements; each is closed by [exact] of a lemma of the proof files
+   (PUpdate, PStore, PRotation, PTurns, PChain) and followed by Print Assumptions.
+   Predicates used in the statements (defined in the proof files, all plain first-order):
+     PUpdate.Inv l      unique addresses, powers > 0, sorted by (power desc, address asc),
+                        0 < total <= MaxTotalVotingPower, non-empty
+     PRotation.WF T l   non-empty, unique addresses, powers > 0, total = T, 0 < T <= Max
+     PRotation.PB B l   every priority within [-B, B];  PRotation.Bmax = 3*Max+1 (< 2^62)
+     PTurns.WF T l      as PRotation.WF without the upper limit on T *)
+From Coq Require Import List ZArith NArith Bool Permutation Sorted.
 From TM Require Import Common.Hex Generated.Consts C08.Model C08.Proofs.
+From TM Require C08.PUpdate C08.PStore C08.PRotation C08.PTurns C08.PChain.
 Import ListNotations.
 Open Scope Z_scope.
 
+(* ================================================================ update batches *)
+
+(* "either fails leaving the set untouched": in the model every check precedes every mutation,
+   so this holds by construction; on the Go object it is monitored by the run (clause 1). *)
 Theorem C08_update_error_unchanged : forall vs cs,
-  snd (update_in_place vs cs) <> None -> fst (update_in_place vs cs) = vs.
-Proof. exact update_error_unchanged. Qed.
+  snd (PUpdate.update_in_place vs cs) <> None -> fst (PUpdate.update_in_place vs cs) = vs.
+Proof. exact PUpdate.update_error_unchanged. Qed.
 Print Assumptions C08_update_error_unchanged.
+
+(* "yields the same set regardless of the order of the batch": any permutation of the batch,
+   any starting set (no invariant needed), with and without deletions allowed *)
+Theorem C08_update_order_independent : forall vs cs cs' b vs',
+  Permutation cs cs' ->
+  (update_with_change_set vs cs b = Ok vs' <-> update_with_change_set vs cs' b = Ok vs').
+Proof. exact PUpdate.update_order_independent. Qed.
+Print Assumptions C08_update_order_independent.
+
+Theorem C08_update_order_independent_err : forall vs cs cs' b,
+  Permutation cs cs' ->
+  ((exists e, update_with_change_set vs cs b = Err e) <-> (exists e, update_with_change_set vs cs' b = Err e)).
+Proof. exact PUpdate.update_order_independent_err. Qed.
+Print Assumptions C08_update_order_independent_err.
+
+Theorem C08_new_validator_set_order_independent : forall valz valz',
+  Permutation valz valz' -> new_validator_set valz = new_validator_set valz'.
+Proof. exact PUpdate.new_validator_set_order_independent. Qed.
+Print Assumptions C08_new_validator_set_order_independent.
+
+(* "unique addresses, no zero-power members, canonical order, total power within the limit,
+   never empty" — from the empty set (NewValidatorSet) or any set with the invariant *)
+Theorem C08_update_invariants : forall vs cs b vs',
+  (vs_vals vs = [] \/ PUpdate.Inv (vs_vals vs)) -> cs <> [] ->
+  update_with_change_set vs cs b = Ok vs' -> PUpdate.Inv (vs_vals vs').
+Proof. exact PUpdate.update_invariants. Qed.
+Print Assumptions C08_update_invariants.
+
+Theorem C08_new_validator_set_invariants : forall valz vs,
+  valz <> [] -> new_validator_set valz = Some vs ->
+  PUpdate.Inv (vs_vals vs) /\ forall a, power_of (vs_vals vs) a = expected_power [] valz a.
+Proof. exact PUpdate.new_validator_set_inv. Qed.
+Print Assumptions C08_new_validator_set_invariants.
+
+(* IncrementProposerPriority changes priorities only *)
+Theorem C08_increment_keeps_invariants : forall t vs vs',
+  ipp t vs = Some vs' -> PUpdate.Inv (vs_vals vs) -> PUpdate.Inv (vs_vals vs').
+Proof. exact PUpdate.ipp_keeps_inv. Qed.
+Print Assumptions C08_increment_keeps_invariants.
+
+(* the set after the batch is the finite-map semantics of the batch (the "map-based reference") *)
+Theorem C08_update_refines_map : forall vs cs b vs',
+  NoDup (PUpdate.addrs (vs_vals vs)) ->
+  update_with_change_set vs cs b = Ok vs' -> cs <> [] ->
+  forall a, power_of (vs_vals vs') a = expected_power (vs_vals vs) cs a.
+Proof. exact PUpdate.update_refines_map. Qed.
+Print Assumptions C08_update_refines_map.
+
+(* exactly the well-formed batches are accepted (so the theorems above are not about a model
+   that refuses everything), and no panic branch is reachable *)
+Theorem C08_update_accepted_iff : forall vs cs b,
+  (vs_vals vs = [] \/ PUpdate.Inv (vs_vals vs)) -> cs <> [] ->
+  ((exists vs', update_with_change_set vs cs b = Ok vs') <-> PUpdate.batch_ok (vs_vals vs) cs b).
+Proof. exact PUpdate.update_accepted_iff. Qed.
+Print Assumptions C08_update_accepted_iff.
+
+Theorem C08_update_no_panic : forall vs cs b,
+  (vs_vals vs = [] \/ PUpdate.Inv (vs_vals vs)) -> update_with_change_set vs cs b <> Err EPanic.
+Proof. exact PUpdate.update_no_panic. Qed.
+Print Assumptions C08_update_no_panic.
+
+(* verifyUpdates sorts the deltas with an unstable sort: the outcome does not depend on how
+   equal deltas are ordered, and equals the closed form *)
+Theorem C08_verify_updates_closed : forall ups vals removed total,
+  total_power vals = Some total -> total - removed <= max_total_voting_power ->
+  verify_updates ups vals removed =
+  if total + PUpdate.zsum (map (delta vals) ups) - removed >? max_total_voting_power
+  then Err EOverflow else Ok (total + PUpdate.zsum (map (delta vals) ups)).
+Proof. exact PUpdate.verify_updates_closed. Qed.
+Print Assumptions C08_verify_updates_closed.
+
+(* ================================================================ historical lookup *)
+
+(* "asking the node for the validator set of any retained past height returns exactly the set,
+   including the proposer, that was in force there": every genesis, every sequence of blocks
+   (arbitrary update batches, refused ones included) and prunes (forward = each PruneStates
+   retains a height not below the current base), every checkpoint interval K, every recorded
+   height at or above the base.  Holds for the repaired LoadValidators (fix F1). *)
+Theorem C08_load_validators_exact : forall K valz initial n0 ops,
+  0 < K <= max_int32 -> 0 < initial -> start K valz initial = Some n0 -> PStore.forward K n0 ops ->
+  let n := run K n0 ops in
+  forall h vs, In (h, vs) (n_sets n) -> n_base n <= h -> load_validators K (n_db n) h = LvOk vs.
+Proof. exact PStore.load_exact. Qed.
+Print Assumptions C08_load_validators_exact.
+
+Theorem C08_load_validators_exact_blocks : forall K valz initial n0 ops,
+  0 < K <= max_int32 -> 0 < initial -> start K valz initial = Some n0 ->
+  Forall (fun o => match o with OBlock _ => True | OPrune _ _ => False end) ops ->
+  let n := run K n0 ops in
+  forall h vs, In (h, vs) (n_sets n) -> load_validators K (n_db n) h = LvOk vs.
+Proof. exact PStore.load_exact_blocks. Qed.
+Print Assumptions C08_load_validators_exact_blocks.
+
+(* the unrepaired code (one IncrementProposerPriority(k) instead of k calls with 1) is refuted *)
+Theorem C08_load_validators_unfixed_refuted : exists vs k, replay_unfixed k vs <> replay k vs.
+Proof. exact PStore.replay_differs. Qed.
+Print Assumptions C08_load_validators_unfixed_refuted.
+
+(* ================================================================ rotation = specification, no overflow *)
+
+(* one IncrementProposerPriority(1) — the step from height to height — IS the specification's
+   ProposerSelection in plain integers: no saturating operation saturates, no int64 wraps *)
+Theorem C08_rotation_is_spec : forall T l p, PRotation.WF T l -> PRotation.PB PRotation.Bmax l ->
+  ipp 1 (mkVS l p) = Some (mkVS (fst (spec_selection T l)) (snd (spec_selection T l))).
+Proof. exact PRotation.rotation_is_spec. Qed.
+Print Assumptions C08_rotation_is_spec.
+
+(* ... and leaves every priority within 3T+1 (<= Bmax), so the hypotheses hold again *)
+Theorem C08_priorities_bounded_step : forall T l p vs',
+  PRotation.WF T l -> PRotation.PB PRotation.Bmax l -> ipp 1 (mkVS l p) = Some vs' ->
+  PRotation.WF T (vs_vals vs') /\ PRotation.PB (3 * T + 1) (vs_vals vs') /\
+  PRotation.PB PRotation.Bmax (vs_vals vs') /\
+  (exists m, vs_prop vs' = Some m /\ In m (vs_vals vs')).
+Proof. exact PRotation.ipp1_bound. Qed.
+Print Assumptions C08_priorities_bounded_step.
+
+(* along every chain history: every set ever in force has the invariants, priorities within
+   3T+1, a proposer that is a member *)
+Theorem C08_priorities_no_clip_chain : forall K valz initial n0 ops,
+  start K valz initial = Some n0 ->
+  let n := run K n0 ops in
+  forall h vs, In (h, vs) (n_sets n) ->
+    PUpdate.Inv (vs_vals vs) /\
+    PRotation.PB (3 * PUpdate.sum_power (vs_vals vs) + 1) (vs_vals vs) /\
+    (exists m, vs_prop vs = Some m /\ In m (vs_vals vs)).
+Proof. exact PChain.chain_sets_bounded. Qed.
+Print Assumptions C08_priorities_no_clip_chain.
+
+(* ... and the next height's set is the specification's selection applied to it *)
+Theorem C08_chain_step_is_spec : forall K valz initial n0 ops,
+  start K valz initial = Some n0 ->
+  let n := run K n0 ops in
+  forall h vs, In (h, vs) (n_sets n) ->
+    let T := PUpdate.sum_power (vs_vals vs) in
+    PRotation.WF T (vs_vals vs) /\ PRotation.PB PRotation.Bmax (vs_vals vs) /\
+    ipp 1 vs = Some (mkVS (fst (spec_selection T (vs_vals vs))) (snd (spec_selection T (vs_vals vs)))).
+Proof. exact PChain.chain_step_is_spec. Qed.
+Print Assumptions C08_chain_step_is_spec.
+
+(* k rounds inside one height (IncrementProposerPriority(k)): no saturation as long as
+   (k+2)*T+1 fits in int64.  PARTIAL: the full statement
+     forall k, 1 <= k -> ipp k (mkVS l p) = Some vs' -> PB (c*T) (vs_vals vs')   (c independent of k, n)
+   needs the sharp bound on the priorities of the weighted round-robin, which is not proved. *)
+Theorem C08_priorities_no_clip_rounds_partial : forall T l p k vs',
+  PRotation.WF T l -> PRotation.PB PRotation.Bmax l -> 1 <= k ->
+  (k + 2) * T + 1 <= max_int64 -> ipp k (mkVS l p) = Some vs' ->
+  PRotation.PB ((k + 2) * T + 1) (vs_vals vs') /\ PRotation.WF T (vs_vals vs') /\
+  (exists m, vs_prop vs' = Some m /\ In m (vs_vals vs')) /\
+  0 <= sum_prio (vs_vals vs') < Z.of_nat (length (vs_vals vs')).
+Proof. exact PRotation.ippk_no_clip_partial. Qed.
+Print Assumptions C08_priorities_no_clip_rounds_partial.
+
+(* ================================================================ turns proportional to power
+   (static set, k successive increments in plain integers = the model's inc_times as long as
+   nothing saturates: C08_rounds_are_plain) *)
+
+Theorem C08_rounds_are_plain : forall k T l B p,
+  PTurns.WF T l -> Forall (fun v => - B <= v_prio v <= B) l -> B + Z.of_nat k * T <= max_int64 ->
+  fst (inc_times k T l p) = fst (PTurns.run_raw k T l) /\
+  (k <> O -> exists m, snd (inc_times k T l p) = Some m /\
+                       v_addr m = last (snd (PTurns.run_raw k T l)) [] /\
+                       In m (fst (PTurns.run_raw k T l))).
+Proof. exact PTurns.inc_times_raw_full. Qed.
+Print Assumptions C08_rounds_are_plain.
+
+(* exact accounting: T * (turns of a in k rounds) = k * power(a) + priority before - priority after *)
+Theorem C08_turns_accounting : forall T l k lf ps a,
+  PTurns.WF T l -> PTurns.run_raw k T l = (lf, ps) -> In a (PTurns.addrs l) ->
+  T * PTurns.count a ps = Z.of_nat k * PTurns.pow_of a l + PTurns.prio_of a l - PTurns.prio_of a lf.
+Proof. exact PTurns.turns_accounting. Qed.
+Print Assumptions C08_turns_accounting.
+
+(* [R2] of the specification: from zero priorities, in j*T rounds validator a is elected exactly
+   j*power(a) times and the priorities are back at zero (the sequence repeats) *)
+Theorem C08_turns_exact_periods : forall j T l lf ps,
+  PTurns.WF T l -> Forall (fun v => v_prio v = 0) l ->
+  PTurns.run_raw (j * Z.to_nat T) T l = (lf, ps) ->
+  lf = l /\ forall a, In a (PTurns.addrs l) -> PTurns.count a ps = Z.of_nat j * PTurns.pow_of a l.
+Proof. exact PTurns.turns_exact_periods. Qed.
+Print Assumptions C08_turns_exact_periods.
+
+(* priorities never fall below -(T-1) / the starting minimum *)
+Theorem C08_priority_lower_bound : forall T l k lf ps L,
+  PTurns.WF T l -> 0 <= sum_prio l -> L <= 1 - T ->
+  Forall (fun v => L <= v_prio v) l -> PTurns.run_raw k T l = (lf, ps) ->
+  Forall (fun v => L <= v_prio v) lf.
+Proof. exact PTurns.prio_lower_bound_strict. Qed.
+Print Assumptions C08_priority_lower_bound.
+
+(* from any windowed start (what a set looks like after RescalePriorities + shiftByAvg):
+   bounded deviation from the proportional share.  PARTIAL: the lower side carries the factor
+   (n-1); the sharp statement
+     | T * count a ps - k * power(a) | <= c * T      (c independent of the number of validators)
+   needs the n-independent upper bound on priorities and is not proved. *)
+Theorem C08_turns_proportional_partial : forall T l k lf ps a,
+  PTurns.WF T l -> 0 <= sum_prio l ->
+  Forall (fun v => - (2 * T + 1) <= v_prio v <= 2 * T + 1) l ->
+  PTurns.run_raw k T l = (lf, ps) -> In a (PTurns.addrs l) ->
+  - (Z.of_nat (length l) - 1) * (4 * T + 2) <=
+    T * PTurns.count a ps - Z.of_nat k * PTurns.pow_of a l <= 4 * T + 2.
+Proof. exact PTurns.turns_proportional_partial. Qed.
+Print Assumptions C08_turns_proportional_partial.
+
+(* exported for C03: every validator proposes within a bounded window *)
+Theorem C08_proposer_window : forall T l k lf ps a,
+  PTurns.WF T l -> 0 <= sum_prio l ->
+  Forall (fun v => - (2 * T + 1) <= v_prio v <= 2 * T + 1) l ->
+  PTurns.run_raw k T l = (lf, ps) -> In a (PTurns.addrs l) ->
+  Z.of_nat k * PTurns.pow_of a l > (Z.of_nat (length l) - 1) * (4 * T + 2) -> In a ps.
+Proof. exact PTurns.proposer_window. Qed.
+Print Assumptions C08_proposer_window.
+
+(* ================================================================ non-vacuity *)
+
+(* a 3-validator set with the invariant; a batch with an add, a removal and a power change is
+   accepted, gives the same set in the reverse order; a duplicate fails in both orders *)
+Example C08_update_nonvacuous :
+  PUpdate.Inv PUpdate.ex_vals /\ Permutation PUpdate.ex_cs (rev PUpdate.ex_cs) /\
+  update_with_change_set PUpdate.ex_vs PUpdate.ex_cs true = Ok PUpdate.ex_out /\
+  update_with_change_set PUpdate.ex_vs (rev PUpdate.ex_cs) true = Ok PUpdate.ex_out /\
+  PUpdate.Inv (vs_vals PUpdate.ex_out) /\ PUpdate.batch_ok PUpdate.ex_vals PUpdate.ex_cs true /\
+  map (power_of (vs_vals PUpdate.ex_out)) [[1%N]; [2%N]; [3%N]; [4%N]] = [None; Some 50; Some 30; Some 5].
+Proof.
+  split; [exact PUpdate.ex_inv|]. split; [exact PUpdate.ex_order_perm|].
+  split; [exact PUpdate.ex_order_1|]. split; [exact PUpdate.ex_order_2|].
+  split; [exact PUpdate.ex_out_inv|]. split; [exact PUpdate.ex_batch_ok|].
+  vm_compute; reflexivity.
+Qed.
+
+(* K = 4: thirteen blocks (two with updates, one refused), two prunes; pointer entries at
+   retained heights, the pruned heights are gone, every retained height reads back exactly *)
+Example C08_load_nonvacuous :
+  exists n0, start 4 PStore.ex_valz 3 = Some n0 /\ PStore.forward 4 n0 PStore.ex_ops2 /\
+    let n := run 4 n0 PStore.ex_ops2 in
+    n_base n = 14 /\
+    map (PStore.is_ptr (n_db n)) [13; 14; 15; 16; 17] = [false; true; true; false; true] /\
+    let kept := filter (fun hv => n_base n <=? fst hv) (n_sets n) in
+    map fst kept = [17; 16; 15; 14] /\
+    map (fun hv => load_validators 4 (n_db n) (fst hv)) kept = map (fun hv => LvOk (snd hv)) kept.
+Proof.
+  eexists. split; [vm_compute; reflexivity|].
+  split; [vm_compute; repeat split; intro H; discriminate H|].
+  vm_compute. repeat split; reflexivity.
+Qed.
+
+(* 5/3/1: one step equals the specification; a start with spread 200 > 2*9 is rescaled; after 9
+   heights the priorities are back at zero; 18 rounds give 10, 6, 2 turns *)
+Example C08_rotation_nonvacuous :
+  PRotation.WF 9 PRotation.ex_l3 /\ PRotation.PB PRotation.Bmax PRotation.ex_l3r /\
+  ipp 1 (mkVS PRotation.ex_l3 None)
+  = Some (mkVS [mkVal [1%N] 5 (-4); mkVal [2%N] 3 3; mkVal [3%N] 1 1] (Some (mkVal [1%N] 5 (-4)))) /\
+  ipp 1 (mkVS PRotation.ex_l3r None)
+  = Some (mkVS [mkVal [1%N] 5 4; mkVal [2%N] 3 (-5); mkVal [3%N] 1 1] (Some (mkVal [1%N] 5 4))) /\
+  (let '(lf, ps) := PTurns.run_raw 18 9 PTurns.ex_l in
+   (PTurns.count [1%N] ps, PTurns.count [2%N] ps, PTurns.count [3%N] ps) = (10, 6, 2) /\ lf = PTurns.ex_l).
+Proof.
+  split; [exact PRotation.ex_WF|]. split; [exact PRotation.ex_PBr|].
+  vm_compute. repeat split; reflexivity.
+Qed.
